@@ -36,7 +36,8 @@ TraceInit ==
   /\ t \in 1..Len(Traces)
   /\ inp = InputIndex(Traces[t].inp)
   /\ pc = 1 /\ exit = "running" /\ sched = <<>>
-  /\ fs = [tgt |-> Orig, tmp |-> None]
+  /\ fs = [tgt |-> Orig, tmp |-> None,
+           left |-> IF AllIn[InputIndex(Traces[t].inp)].left >= 0 THEN Left(AllIn[InputIndex(Traces[t].inp)].left) ELSE None]
 
 TraceStep ==
   /\ exit = "running" /\ pc <= Len(Evs)
